@@ -74,6 +74,9 @@ PROPS = {
         dict(kind="macro", profile="C13", preds="frame", quick=400, thorough=10000)]),
     "C14": dict(theorems=["Props/C14.v"], parts=[
         dict(kind="macro", profile="C14", preds="iso,pure", quick=400, thorough=10000)]),
+    "C16": dict(theorems=["Props/C16.v"], parts=[
+        dict(kind="core", profile="C16", mask="", preds="", quick=1200, thorough=60000, panic_is_failure=True),
+        dict(kind="macro", profile="C16", preds="", quick=400, thorough=10000, panic_is_failure=True)]),
     "C15": dict(theorems=["Props/C15.v"], parts=[
         dict(kind="core", profile="C15", mask="out,stats", preds="c15", quick=Q, thorough=T),
         dict(kind="macro", profile="C15", preds="stats", quick=300, thorough=8000)]),
